@@ -150,6 +150,40 @@ add("C23", "fixed", "dict:stale-source-after-edit:sync", "CachingDictLoader / ca
 add("C23", "fixed", "dict:globals-differ:request-without-globals:sync", "cache hit for a request without globals in an environment without globals returned the template still carrying the previous request's globals",
     [c23("dict", [get("t1", g={"g": "G1"}), get("t1")], env_globals=False), c23("fs", [get("t1", is_async=True, g={"g": "G1"}), get("t1", is_async=True)], env_globals=False, auto_reload=False)], "9c60297")
 
+add("C04", "open", "reparse-error:digit-leading-word", "a word that starts with digits (3nil) is lexed as one word and parsed as a path; str() prints it as the bracketed root ['3nil'], which the filter-argument parser rejects: "
+    "str() of '{{f|minus:3nil}}' is \"{{ f | minus: ['3nil'] }}\" and does not parse", [c04("{{f|minus:3nil}}"), c04("{{'x'|truncate:5nil}}")])
+add("C21", "open", "false-alarm:tags-inside-extraneous-else-or-elsif-block-skipped-by-parser",
+    "if/unless parse with a tag-specific lax mode: everything from a second else (or an elsif after else) up to the closing end tag is skipped, so '{% if a %}{% else %}{% elsif b %}{% nosuch x %}{% endif %}' "
+    "parses in strict mode, but tag analysis looks inside the skipped region and reports unknown 'nosuch' (likewise unclosed/unexpected tags there)",
+    [{"seq": ["if", "else", "elsif", "nosuch", "endif"], "extra": False}, {"seq": ["if", "else", "elsif", "if", "endif"], "extra": False}, {"seq": ["unless", "else", "elsif", "endcomment", "endunless"], "extra": False}])
+
+# ----------------------------------------------------------------------------- C17 fixed
+def c17(hist, probe, aim="date-equal-values"):
+    def sp(d, f, env=None):
+        return {"source": "{{ d | date: f }}", "data": V.enc({"d": d, "f": f}), "env": env or {}, "async": False}
+    return {"kind": "history", "aim": aim, "history": [sp(*h) for h in hist], "probe": sp(*probe)}
+
+
+import datetime as _dt  # noqa: E402
+
+_b = _dt.datetime(2024, 3, 1, 12, 30, tzinfo=_dt.timezone.utc)
+add("C17", "fixed", "history-dependent:date-equal-values:filter:date", "the date filter's functools memo keyed 1, 1.0 and True (and equal datetimes in different time zones) alike: {{ 0.0 | date: '%H:%M' }} raised alone but gave '00:00' "
+    "after {{ false | date: '%H:%M' }}; a +05:00 datetime printed another zone's hour after an equal datetime had been formatted",
+    [c17([(False, "%H:%M")], (0.0, "%H:%M")), c17([(1, "%Y")], (1.0, "%Y")), c17([(_b.astimezone(_dt.timezone(_dt.timedelta(hours=-8))), "<%H>")], (_b.astimezone(_dt.timezone(_dt.timedelta(hours=5))), "<%H>"))], "52d3aa2")
+add("C17", "fixed", "history-dependent:date-markup-format:filter:date", "with autoescape on, a str format and an equal Markup format shared a memo entry, so the result's safe/unsafe marking depended on which was rendered first",
+    [], "52d3aa2")
+
+# ----------------------------------------------------------------------------- fixed by earlier commits (pinned by the checks' own hand-written cases; no separate witness format)
+add("C06", "fixed", "length-not-carried:tablerow|include-for|render-for", "tablerow, include ... for and render ... for checked their own length against loop_iteration_limit but did not carry it into nested loops", [], "25baed3")
+add("C26", "fixed", "tag:count-zero-selects-singular", "translate tag/filters with count: 0 chose the singular form; gettext's null translations choose the plural for n != 1", [], "5606853")
+add("C25", "fixed", "truncate:length-contract", "truncate returned a string longer than its input when n < len(ellipsis) and truncated a string of exactly n characters", [], "e57f2ed")
+add("C21", "fixed", "false-alarm:unexpected:break@inside-loop", "tag analysis reported break/continue inside tablerow as unexpected", [], "06488c8")
+add("C21", "fixed", "false-alarm:unknown:endblock", "with extra=True tag analysis reported endblock / endmacro as unknown tags (block and macro did not declare their end tags)", [], "42c45bd")
+add("C21", "fixed", "false-alarm:unexpected:else", "tag analysis reported else inside for/case and plural inside translate as unexpected", [], "3d1115e")
+add("C21", "fixed", "analysis-raises-IndexError@analyze_tags.py", "analyze_tags_from_string raised IndexError for a stray end tag", [], "b3d220e")
+add("C10", "fixed", "raw:closing-hyphen-ignored", "{% raw %}...{% endraw -%} ignored the closing hyphen and {% raw -%} stripped the text after endraw", [], "46ff944")
+add("C10", "fixed", "text:trailing-newline-split", "template text ending in a newline was split into two tokens, which broke whitespace control on the following tag", [], "eb32805")
+
 if __name__ == "__main__":
     # further entries are appended by tools/mkfindings.py from triaged replay files and kept in findings_extra.json
     extra_path = os.path.join(VERIF, "tools", "findings_extra.json")
